@@ -274,3 +274,165 @@ for _cid, _o in (('ifbody3', 'trivia'), ('ifbody3', 'pep8space'), ('list4c', 'pa
 CELLS.append(Cell('P2.query_options', p2_query_options, 'P', FNO + ['fst.fst.FST.own_src', 'fst.fst.FST.own_lines'],
                   'own_src() on every def/class/statement of a carrier with docstrings, asked in all 6 orders of (default, docstr=v1 per call, inside options(docstr=v2)) for v1, v2 in {True, False, strict}; '
                   'each answer equals a fresh tree asked once under the same effective option', budget=600, per_path=60, reset=_reset))
+
+
+# ---------------------------------------------------------------------------------------------------------------- P3
+# Two real threads, each with its own tree and its own options. The SCHEDULE is the symbolic variable: which thread is preempted,
+# and after how many executed lines of pfst code (counted by a sys.settrace hook in that thread); the other thread then runs its
+# whole program, then the first one resumes. Each thread's observations (edited source, tree dump, every get_options()
+# snapshot, exceptions) must equal those of the same program run alone in a fresh thread.
+import os as _os
+import queue as _queue
+import sys as _sys
+import threading as _threading
+
+import fst as _fstpkg
+
+_FSTDIR = _os.path.dirname(_fstpkg.__file__)
+
+
+def _prog_a():
+    import ast as _ast
+    obs = [('start', dict(FST.get_options()))]
+    FST.set_options(pep8space=False, op_side='right')
+    t = FST('def f(): pass\nx = [a,  # c\n     b]\nif u:\n    v = 1  # cv\n', 'exec')
+    with FST.options(trivia=False, norm=True, pars=True):
+        t.body[1].value.put_slice('p, q', 1, 2)
+        t.body.append('def g(): pass')
+        obs.append(('inside', dict(FST.get_options())))
+        try:
+            t.body[2].put_slice('else = 1', 0, 1)       # fails: must not leak the block's options nor lock the tree
+        except Exception as e:   # noqa: BLE001
+            obs.append(('exc', type(e).__name__))
+    t.body[2].body.append('w = 2')
+    obs.append(('src', t.src))
+    obs.append(('dump', _ast.dump(t.a, include_attributes=True)))
+    obs.append(('parse', _ast.dump(_ast.parse(t.src), include_attributes=True)))
+    obs.append(('end', dict(FST.get_options())))
+    return obs
+
+
+def _prog_b():
+    import ast as _ast
+    obs = [('start', dict(FST.get_options()))]
+    t = FST('class C:\n    """doc"""\n    k = (1,\n         2)\n\ny = f(k, *m)\n', 'exec')
+    t.body[1].value.put_slice('n=3', 2, 2, '_args', pars=False)
+    FST.set_options(trivia=('all', 'line'), docstr='strict')
+    obs.append(('mid', dict(FST.get_options())))
+    t.body[0].body[1].value.elts[1].replace('(yield)')
+    t.body[0].body.insert('z: int = 0  # cz', 1)
+    try:
+        with FST.options(elif_=False):
+            t.body[0].put_slice('def m(self): pass', 'end', 'end')
+            raise KeyError('boom')
+    except KeyError:
+        obs.append(('after_boom', dict(FST.get_options())))
+    obs.append(('src', t.src))
+    obs.append(('dump', _ast.dump(t.a, include_attributes=True)))
+    obs.append(('parse', _ast.dump(_ast.parse(t.src), include_attributes=True)))
+    obs.append(('end', dict(FST.get_options())))
+    return obs
+
+
+class _Runner(_threading.Thread):
+    """runs a program in its own thread; if pause_at is not None, blocks after that many traced lines of pfst code until released"""
+
+    def __init__(self, prog, pause_at=None):
+        super().__init__(daemon=True)
+        self.prog, self.pause_at = prog, pause_at
+        self.paused = _threading.Event()
+        self.resume = _threading.Event()
+        self.finished = _threading.Event()
+        self.count = 0
+        self.obs = None
+
+    def _trace(self, frame, ev, arg):
+        if not frame.f_code.co_filename.startswith(_FSTDIR):
+            return None
+        if ev == 'line':
+            self.count += 1
+            if self.count == self.pause_at:
+                self.paused.set()
+                self.resume.wait(60)
+        return self._trace
+
+    def run(self):
+        if self.pause_at is not None or True:
+            _sys.settrace(self._trace)
+        try:
+            self.obs = self.prog()
+        except BaseException as e:   # noqa: BLE001
+            self.obs = [('crash', type(e).__name__, str(e)[:200])]
+        finally:
+            _sys.settrace(None)
+            self.paused.set()
+            self.finished.set()
+
+
+_SOLO = {}
+
+
+def _solo():
+    if not _SOLO:
+        for name, prog in (('a', _prog_a), ('b', _prog_b)):
+            r = _Runner(prog)
+            r.start()
+            r.join(60)
+            _SOLO[name] = (r.obs, r.count)
+    return _SOLO
+
+
+def _pin_range(x, lo, hi):
+    """case-split a symbolic int by bisection (log2 decisions per path instead of one per value)"""
+    while lo < hi:
+        mid = (lo + hi) // 2
+        if x <= mid:
+            hi = mid
+        else:
+            lo = mid + 1
+    return lo
+
+
+def _mk_threads(first_b, part, nparts):
+  def p3_threads(k: int):
+    with pc.untraced():
+        solo = _solo()
+        na, nb = solo['a'][1], solo['b'][1]
+    n = nb if first_b else na
+    lo, hi = 1 + (n + 1) * part // nparts, (n + 1) * (part + 1) // nparts       # this cell: preemption points lo..hi of 1..n+1 (n + 1: never preempted)
+    assume(lo <= k <= hi)
+    kk = _pin_range(k, lo, hi)
+    with pc.untraced():
+        p1, p2 = (_prog_b, _prog_a) if first_b else (_prog_a, _prog_b)
+        r1 = _Runner(p1, pause_at=kk)
+        r1.start()
+        r1.paused.wait(60)             # r1 is now parked in the middle of pfst code (or has finished)
+        r2 = _Runner(p2)
+        r2.start()
+        r2.join(60)
+        r1.resume.set()
+        r1.join(60)
+        check(r1.finished.is_set() and r2.finished.is_set(), 'threads.deadlock_or_timeout', (first_b, kk))
+        oa, ob = (r2.obs, r1.obs) if first_b else (r1.obs, r2.obs)
+        for name, got in (('a', oa), ('b', ob)):
+            exp = solo[name][0]
+            if got != exp:
+                d = next((i for i, (g_, e_) in enumerate(zip(got, exp)) if g_ != e_), min(len(got), len(exp)))
+                fail('threads.observation_differs_from_solo_run', (name, first_b, kk, got[d] if d < len(got) else None, exp[d] if d < len(exp) else None))
+        for name in ('a', 'b'):
+            ok = [o for o in solo[name][0] if o[0] in ('dump', 'parse')]
+            check(len(ok) == 2 and ok[0][1] == ok[1][1], 'threads.solo_program_result_violates_C01', name)
+            check(solo[name][0][0][1] == DEFAULTS, 'threads.new_thread_does_not_start_with_defaults', (name, solo[name][0][0][1]))
+    cover('ok')
+  return p3_threads
+
+
+for _fb in (False, True):
+    for _pt in range(8):
+        CELLS.append(Cell(f'P3.threads_preempt[first={"b" if _fb else "a"},part={_pt}/8]', _mk_threads(_fb, _pt, 8), 'P', FNO + ['fst.fst_options._ThreadOptions', 'fst.fst_core._Modifying'],
+                  'two real threads, each editing its own tree under its own option defaults / blocks / per-call options (incl. a failing edit and a raising block); SCHEDULE symbolic: the thread named first is '
+                  'preempted after k executed lines of pfst code, k symbolic over this eighth of ALL line boundaries of its program (several thousand), the other thread then runs to completion, then the first resumes; '
+                  'each thread\'s observations (edited source, tree incl. positions, every get_options() snapshot, exceptions) equal its solo run',
+                  tier='quick', budget=900, per_path=120,
+                  stubs=['preemption is placed by a sys.settrace line hook in the preempted thread; granularity = source lines of pfst, not bytecodes'],
+                  out='more than one preemption per run; more than two threads; preemption inside a line (between bytecodes) or inside C code; free-threaded builds', reset=_reset))
